@@ -589,7 +589,15 @@ impl Server {
                     ),
                 )
             })
-            .sorted_by(|a, b| a.uri.cmp(&b.uri))
+            // (the index keeps the referring nodes in hash sets: the listing is ordered by
+            // file and line, not by their iteration order)
+            .sorted_by(|a, b| {
+                a.uri
+                    .cmp(&b.uri)
+                    .then(a.range.start.line.cmp(&b.range.start.line))
+                    .then(a.range.end.line.cmp(&b.range.end.line))
+            })
+            .dedup()
             .collect_vec()
     }
 
